@@ -197,11 +197,16 @@ class CVIART(BaseART):
 
         new_labels = np.copy(self.labels_)
         new_labels[extra["index"]] = c_
-        # the indices are defined for 2 .. n_samples - 1 distinct labels only; outside
-        # that range there is nothing to compare, as with fewer than two clusters
-        for labels in (self.labels_, new_labels):
-            if not 2 <= len(np.unique(labels)) <= len(labels) - 1:
-                return True
+        # the indices are defined for 2 .. n_samples - 1 distinct labels only
+        def defined(labels):
+            return 2 <= len(np.unique(labels)) <= len(labels) - 1
+
+        if not defined(self.labels_):
+            # nothing to compare with, as with fewer than two clusters
+            return True
+        if not defined(new_labels):
+            # a defined index would become undefined: no improvement
+            return False
         old_VI = valid_func(self.data, self.labels_)
         new_VI = valid_func(self.data, new_labels)
         if extra["validity"] != self.DAVIESBOULDIN:
